@@ -191,6 +191,9 @@ func (c09Prop) Execute(p *Plan, run *Run) any {
 	// inspect parses everything after 'parsed' as complete blocks and checks them.
 	inspect := func(opi int, what string) (emitted int, ok bool) {
 		buf := w.Buf
+		if hdr == nil {
+			return 0, true // nothing on disk yet
+		}
 		for parsed < len(buf) {
 			dec := &ref.Dec{Buf: buf, Pos: parsed}
 			count, err1 := decLong(dec)
@@ -253,17 +256,31 @@ func (c09Prop) Execute(p *Plan, run *Run) any {
 		_ = site
 		return nil
 	}
-	hdr, err = ref.ParseContainer(w.Buf)
-	if err != nil || len(hdr.Blocks) != 0 || hdr.HdrEnd != len(w.Buf) {
-		run.Violation("c09/header", "new", fmt.Sprintf("after NewEncoderFor the disk does not hold exactly one complete header: %v", err), nil)
+	// The header may be written by NewEncoderFor (as the pinned code does) or
+	// later, but before the first block: the property speaks only of "the
+	// bytes emitted after the header".
+	var hdrBytes []byte
+	takeHeader := func() bool {
+		if hdr != nil || len(w.Buf) == 0 {
+			return true
+		}
+		h, err := ref.ParseHeader(w.Buf)
+		if err != nil {
+			run.Violation("c09/header", "header", fmt.Sprintf("the first %d bytes on disk do not start with a complete header: %v", len(w.Buf), err), nil)
+			return false
+		}
+		if c := h.Codec(); c != pl.Codec {
+			run.Violation("c09/header", "header", fmt.Sprintf("header declares codec %q, encoder was created with %q", c, pl.Codec), nil)
+			return false
+		}
+		hdr = h
+		hdrBytes = append([]byte{}, w.Buf[:h.HdrEnd]...)
+		parsed = h.HdrEnd
+		return true
+	}
+	if !takeHeader() {
 		return nil
 	}
-	if c := hdr.Codec(); c != pl.Codec {
-		run.Violation("c09/header", "new", fmt.Sprintf("header declares codec %q, encoder was created with %q", c, pl.Codec), nil)
-		return nil
-	}
-	hdrBytes := append([]byte{}, w.Buf...)
-	parsed = len(w.Buf)
 
 	vi := 0
 	for opi, op := range pl.Ops {
@@ -291,7 +308,10 @@ func (c09Prop) Execute(p *Plan, run *Run) any {
 			fail("c09/error", what, fmt.Sprintf("op %d (%s) failed on a fault-free disk: %v", opi, what, err), opi)
 			return nil
 		}
-		if !bytes.Equal(w.Buf[:len(hdrBytes)], hdrBytes) || len(w.Buf) < before {
+		if !takeHeader() {
+			return nil
+		}
+		if len(w.Buf) < before || (hdr != nil && !bytes.Equal(w.Buf[:len(hdrBytes)], hdrBytes)) {
 			fail("c09/header", what, fmt.Sprintf("op %d (%s): earlier bytes on disk changed", opi, what), opi)
 			return nil
 		}
